@@ -175,6 +175,13 @@ impl<T: Qcow2IoOps> Qcow2Dev<T> {
         }
         drop(l2_table);
 
+        if !released.is_empty() || !zeroed.is_empty() {
+            // Writers which looked the old mapping up before it was changed
+            // may still be writing to these clusters: let them finish before
+            // the clusters are punched and can be allocated again.
+            drop(self.data_io_gate.write().await);
+        }
+
         for (host_cluster, host_count) in zeroed {
             let punch_len = host_count * info.cluster_size();
             self.call_fallocate(host_cluster, punch_len, Qcow2OpsFlags::FALLOCATE_ZERO_RANGE)
